@@ -49,8 +49,8 @@ def hash_str(s):
 def tune_c01(rng, k):
     k["w"]["region_add"] = max(k["w"]["region_add"], 3)
     k["nregions"] = rng.choice([1, 1, 2, 3])
-    if rng.random() < 0.15:
-        k["rel_arcs"] = True   # relative-mode arcs: sub-campaign, attributable by the flag in cfg
+    if rng.random() < 0.4:
+        k["wipe"] = 0.3
 
 
 def tune_c02(rng, k):
@@ -65,6 +65,12 @@ def tune_c02(rng, k):
     k["w"]["g92xyz"] = 0
     k["w"]["region_shrink"] = 0
     k["p_abort"] = 0.1
+    if mode == "clear" and rng.random() < 0.5:
+        # disable ... enable brackets inside a clear-path program: still nothing may be altered, but the
+        # decisions after re-enabling depend on the position tracked while exclusion was off
+        k["w"]["at_switch"] = rng.choice([2, 5])
+        k["after_enable_moves"] = True
+        k["axes_w"] = [40, 20, 20, 10, 10]
 
 
 def tune_c03(rng, k):
@@ -78,8 +84,8 @@ def tune_c03(rng, k):
     k["axes_w"] = [45, 10, 10, 25, 10]
     k["p_extrude_z"] = 0.3
     k["w"]["at_noop"] = 0
-    if rng.random() < 0.12:
-        k["rel_arcs"] = True
+    if rng.random() < 0.3:
+        k["wipe"] = 0.3
 
 
 def tune_c04(rng, k):
@@ -103,6 +109,9 @@ def tune_c07(rng, k):
     k["w"]["units"] = 3
     k["w"]["mode"] = 3
     k["tiny_e"] = 0.3
+    k["tiny_z"] = 0.4
+    k["p_special"] = 0.2
+    k["axes_w"] = [35, 12, 12, 21, 20]
     k["nops"] = rng.choice([30, 60, 120, 250, 400])
     k["retract"] = rng.choice(["e", "e", "fw"])
 
@@ -324,6 +333,7 @@ class RestartCheck(object):
         k["p_abort"] = 0.5
         k["aim_w"] = [50, 5, 10, 35]
         k["prints"] = rng.choice([1, 2])
+        k["wipe"] = rng.choice([0, 0.3, 0.6])
         conf = gen.rand_deferral_config(rng)
         k["settings"] = {"extendedExcludeGcodes": conf, "exitingExcludedRegionGcode": gen.rand_script(rng, "EXIT"),
                          "enteringExcludedRegionGcode": gen.rand_script(rng, "ENTER")}
@@ -354,6 +364,7 @@ class RestartCheck(object):
         k2["nops"] = rng.choice([5, 10, 20, 40])
         k2["p_abort"] = 0.2
         k2["p_end_inside"] = 0.3
+        k2["wipe"] = rng.choice([0, 0.3])
         regions = {} if cfg["settings"].get("clearRegionsAfterPrintFinishes") else g1.regions
         _c2, ops2 = gen.gen_print_schedule(rng, "C10", k2, regions=regions, nid=g1.nid + 100)
         ops2 = [op for op in ops2 if op["op"] != "print_start"]
